@@ -9,8 +9,8 @@ import (
 	"strings"
 	"unsafe"
 
-	wire "github.com/jeroenrinzema/psql-wire"
 	"github.com/jackc/pgx/v5/pgtype"
+	wire "github.com/jeroenrinzema/psql-wire"
 	"github.com/jeroenrinzema/psql-wire/pkg/verifshim/vsched"
 	"github.com/jeroenrinzema/psql-wire/pkg/verifshim/vsync"
 	"verif/engine/explore"
@@ -155,9 +155,9 @@ type c16Conn struct {
 type c16Spec struct {
 	acceptFault bool // the listener reports an Accept error while a connection is being served
 	midFrame    bool // the statement writes a row whose value yields to the scheduler while it is being encoded
-	name    string
-	conns   []c16Conn
-	closers int
+	name        string
+	conns       []c16Conn
+	closers     int
 	// secondClose: one more Close issued by the main thread after all concurrent ones returned
 	secondClose bool
 	// closeBeforeServe: Close is called by main before Serve is started
